@@ -27,7 +27,7 @@ func init() {
 		RequiredCounters: []string{"challenges_compared", "perturbed_pairs_differ", "pending_over_1024"},
 		Assumptions:      []string{"SHA-256 collisions are treated as impossible: two different absorbed byte streams must give different challenges"},
 		Plan: func(tier string) []Child {
-			return shardsVar(pick(tier, 6, 16), Child{Flavour: "plain", NCPU: 1})
+			return plus386(shardsVar(pick(tier, 6, 16), Child{Flavour: "plain", NCPU: 1}), 1)
 		},
 		Run: runC14,
 	})
@@ -375,6 +375,10 @@ func runC14(c *mon.Ctx) {
 					proto = []string{"", "test", "simple_protocol", "vt"}[rng.Intn(4)]
 				}
 				ops := c14gen(rng, maxLen, maxMsg, len(pool.P))
+				if j%8 == 3 {
+					fieldEdgeCalls(nil, rng) // unrelated legal calls into the field packages (wide reductions, zeros, ...) as history
+					c.Count("field_edge_calls_in_history", 1)
+				}
 				r1 := c14run(c, proto, ops, pool, rng, true)
 				r2 := c14run(c, proto, ops, pool, rng, false)
 				if len(r1.chals) != len(r2.chals) {
